@@ -71,6 +71,39 @@ func kfOf(p rtcp.Packet, datagram bool) []string {
 	return out
 }
 
+// kf1Symptom returns the list in which every SliceLossIndication is replaced by exactly what
+// known finding KF1 predicts: a RawPacket holding the SLI's own (PT 205) encoding. A list that
+// differs from the expectation in any other way is not attributed to KF1.
+func kf1Symptom(want []rtcp.Packet) ([]rtcp.Packet, bool) {
+	out := make([]rtcp.Packet, len(want))
+	any := false
+	for i, p := range want {
+		if sli, ok := p.(*rtcp.SliceLossIndication); ok {
+			e, err := ref.Encode(sli, ref.Lib)
+			if err != nil {
+				return nil, false
+			}
+			rp := rtcp.RawPacket(e.B)
+			out[i] = &rp
+			any = true
+		} else {
+			out[i] = p
+		}
+	}
+	return out, any
+}
+
+// withoutKF1 drops KF1 from a finding list.
+func withoutKF1(kfs []string) []string {
+	var out []string
+	for _, k := range kfs {
+		if k != "KF1" {
+			out = append(out, k)
+		}
+	}
+	return out
+}
+
 func c02Value(cs *core.Case, p rtcp.Packet) {
 	k := gen.KindOf(p)
 	b, err, pan := gMarshal(p)
@@ -111,7 +144,27 @@ func c02Value(cs *core.Case, p rtcp.Packet) {
 	if derr != nil {
 		cs.Fail("own-decoder/error/"+k.String(), det(core.W{"error": errStr(derr)})(), kfs...)
 	} else if !mon.SemEqual(got, want) {
-		cs.Fail("own-decoder/value/"+k.String(), det(core.W{"decoded": vdump(got), "expected": vdump(want)})(), kfs...)
+		attributed := false
+		if wc, ok := want.(*rtcp.CompoundPacket); ok {
+			if sym, any := kf1Symptom([]rtcp.Packet(*wc)); any {
+				if gc, ok2 := got.(*rtcp.CompoundPacket); ok2 && len(*gc) == len(sym) {
+					kindsOK := true
+					for i := range sym {
+						kindsOK = kindsOK && gen.KindOf((*gc)[i]) == gen.KindOf(sym[i])
+					}
+					if kindsOK {
+						cs.Fail("own-decoder/value/"+k.String(), det(core.W{"decoded": vdump(got)})(), "KF1")
+						attributed = true
+						if !mon.SemEqual([]rtcp.Packet(*gc), sym) {
+							cs.Fail("own-decoder/value/"+k.String(), det(core.W{"decoded": vdump(got), "expected": vdump(sym)})(), withoutKF1(kfs)...)
+						}
+					}
+				}
+			}
+		}
+		if !attributed {
+			cs.Fail("own-decoder/value/"+k.String(), det(core.W{"decoded": vdump(got), "expected": vdump(want)})(), withoutKF1(kfs)...)
+		}
 	}
 
 	// datagram decoder
@@ -141,9 +194,28 @@ func c02Value(cs *core.Case, p rtcp.Packet) {
 		}
 	}
 	if !typesOK {
-		cs.Fail("datagram/type/"+k.String(), det(core.W{"decoded": vdump(ps)})(), dkfs...)
-		return
+		// KF1 is attributed only when the result is exactly its symptom (every SLI came back as a
+		// RawPacket with the SLI's own octets, everything else as expected)
+		sameKinds := func(a, b []rtcp.Packet) bool {
+			if len(a) != len(b) {
+				return false
+			}
+			for i := range a {
+				if gen.KindOf(a[i]) != gen.KindOf(b[i]) {
+					return false
+				}
+			}
+			return true
+		}
+		if sym, any := kf1Symptom(wantList); any && sameKinds(ps, sym) {
+			cs.Fail("datagram/type/"+k.String(), det(core.W{"decoded": vdump(ps)})(), "KF1")
+			wantList = sym
+		} else {
+			cs.Fail("datagram/type/"+k.String(), det(core.W{"decoded": vdump(ps)})(), withoutKF1(dkfs)...)
+			return
+		}
 	}
+	dkfs = withoutKF1(dkfs)
 	if !mon.SemEqual(ps, wantList) {
 		cs.Fail("datagram/value/"+k.String(), det(core.W{"decoded": vdump(ps), "expected": vdump(wantList)})(), dkfs...)
 		return
@@ -211,9 +283,23 @@ func c02List(cs *core.Case, list []rtcp.Packet) {
 		return
 	}
 	if !mon.SemEqual(ps, want) {
-		cs.Fail("list/value", det(core.W{"decoded": vdump(ps), "expected": vdump(want)}), kfs...)
-		return
+		sym, any := kf1Symptom(want)
+		kindsOK := any && len(ps) == len(sym)
+		for i := 0; kindsOK && i < len(sym); i++ {
+			kindsOK = gen.KindOf(ps[i]) == gen.KindOf(sym[i])
+		}
+		if kindsOK {
+			cs.Fail("list/value", det(core.W{"decoded": vdump(ps)}), "KF1")
+			if !mon.SemEqual(ps, sym) {
+				cs.Fail("list/value", det(core.W{"decoded": vdump(ps), "expected": vdump(sym)}), withoutKF1(kfs)...)
+				return
+			}
+		} else {
+			cs.Fail("list/value", det(core.W{"decoded": vdump(ps), "expected": vdump(want)}), withoutKF1(kfs)...)
+			return
+		}
 	}
+	kfs = withoutKF1(kfs)
 	b2, err2, pan2 := gMarshalList(ps)
 	cs.Eval(1)
 	if pan2 != "" {
